@@ -117,11 +117,21 @@ func (self Value) GetByPath(pathes ...Path) Value {
 		switch path.t {
 		case PathFieldId:
 			id := path.id()
+			if desc.Type() != thrift.STRUCT {
+				return errValue(meta.ErrUnsupportedType, fmt.Sprintf("%dth path %s doesn't match type %s", i, path, desc.Type()), nil)
+			}
+			f := desc.Struct().FieldById(id)
+			if f == nil {
+				return errValue(meta.ErrUnknownField, fmt.Sprintf("field id %d is not defined in IDL", id), nil)
+			}
 			tt, start, err = searchFieldId(&p, id)
-			desc = desc.Struct().FieldById(id).Type()
+			desc = f.Type()
 			isList = tt == thrift.LIST
 		case PathFieldName:
 			id := path.str()
+			if desc.Type() != thrift.STRUCT {
+				return errValue(meta.ErrUnsupportedType, fmt.Sprintf("%dth path %s doesn't match type %s", i, path, desc.Type()), nil)
+			}
 			f := desc.Struct().FieldByKey(id)
 			if f == nil {
 				return errValue(meta.ErrUnknownField, fmt.Sprintf("field name '%s' is not defined in IDL", id), nil)
@@ -130,15 +140,27 @@ func (self Value) GetByPath(pathes ...Path) Value {
 			desc = f.Type()
 			isList = tt == thrift.LIST
 		case PathIndex:
+			if t := desc.Type(); t != thrift.LIST && t != thrift.SET {
+				return errValue(meta.ErrUnsupportedType, fmt.Sprintf("%dth path %s doesn't match type %s", i, path, t), nil)
+			}
 			tt, start, err = searchIndex(&p, path.int(), isList)
 			desc = desc.Elem()
 		case PathStrKey:
+			if desc.Type() != thrift.MAP {
+				return errValue(meta.ErrUnsupportedType, fmt.Sprintf("%dth path %s doesn't match type %s", i, path, desc.Type()), nil)
+			}
 			tt, start, err = searchStrKey(&p, path.str())
 			desc = desc.Elem()
 		case PathIntKey:
+			if desc.Type() != thrift.MAP {
+				return errValue(meta.ErrUnsupportedType, fmt.Sprintf("%dth path %s doesn't match type %s", i, path, desc.Type()), nil)
+			}
 			tt, start, err = searchIntKey(&p, path.int())
 			desc = desc.Elem()
 		case PathBinKey:
+			if desc.Type() != thrift.MAP {
+				return errValue(meta.ErrUnsupportedType, fmt.Sprintf("%dth path %s doesn't match type %s", i, path, desc.Type()), nil)
+			}
 			tt, start, err = searchBinKey(&p, path.bin())
 			desc = desc.Elem()
 		default:
